@@ -1859,6 +1859,19 @@ class Interp:
                 raise PyRaise(ExcVal("SyntaxError", (str(ex),)))
             except (ValueError, RecursionError, MemoryError) as ex:
                 raise PyRaise(ExcVal(type(ex).__name__, (str(ex),)))
+        if name.startswith("hashlib.") and name.split(".")[1] in ("md5", "sha1", "sha224", "sha256", "sha384", "sha512", "blake2b", "blake2s") \
+                and (not args or isinstance(args[0], (bytes, str))) and all(k in ("usedforsecurity",) for k in kwargs):
+            # a digest of literal data is constant folding: the host implementation is the reference
+            import hashlib as _hl
+            data = args[0] if args else b""
+            hobj = getattr(_hl, name.split(".")[1])(data if isinstance(data, bytes) else data.encode())
+
+            def _mk(meth):
+                def f(interp, a, kw, _m=meth):
+                    return getattr(hobj, _m)()
+                f._opsa_stub = True
+                return f
+            return Obj(None, {"hexdigest": _mk("hexdigest"), "digest": _mk("digest")}, tag="digest")
         if name in ("operator.attrgetter", "attrgetter") and len(args) == 1 and isinstance(args[0], str):
             attr_ = args[0]
 
